@@ -3,7 +3,7 @@ CONSTANTS
   MaxNodes = 4
   Keys = {1, 2}
   Leafs = {101, 150}
-  Shapes = {200, 211, 221}
+  Shapes = {200, 211, 221, 222}
   MaxLen = 2
   Acts = {"dict", "list", "perm", "inplace", "facts"}
   Mirror = FALSE
